@@ -880,12 +880,20 @@ func (h *c15Hist) tamperOp(p *PRNG, allowEscrow bool) error {
 }
 
 func runC15(r *RunCtx) error {
-	r.Sum.Rule = "histories of 30..60 provider operations on the assembled app (InitProvider, ShutdownProvider, governance change of CollateralPrice, SetProviderIP/Keybase/TotalSpace, Add/RemoveClaimer, bank send to the escrow) by 4 accounts + 1 module account under both bech32 spellings and invalid creator strings, with funding at price-1/price/multiples, prices 2..4e18 and forced 0/1/negative prices; one evaluation = one executed operation (= one correspondence case) plus one per whole history; non-trivial = the operation changed the observed state, distinct by (kind, outcome, own record/collateral present, spelling, price in force, number of providers, value); a history is non-trivial if any of its operations is, distinct by its sequence of (kind, outcome)"
+	return c15Histories(r, r.Scale(11, 220), r.Scale(5, 80), true)
+}
+
+// c15Histories runs nh collateral histories (group "hist") and nprov histories heavy on the provider-record
+// management messages (group "provmsgs"); the latter are also part of the C11 check (own-resource frames).
+func c15Histories(r *RunCtx, nh, nprov int, setRule bool) error {
+	rule := "histories of 30..60 provider operations on the assembled app (InitProvider, ShutdownProvider, governance change of CollateralPrice, SetProviderIP/Keybase/TotalSpace, Add/RemoveClaimer, bank send to the escrow) by 4 accounts + 1 module account under both bech32 spellings and invalid creator strings, with funding at price-1/price/multiples, prices 2..4e18 and forced 0/1/negative prices; one evaluation = one executed operation (= one correspondence case) plus one per whole history; non-trivial = the operation changed the observed state, distinct by (kind, outcome, own record/collateral present, spelling, price in force, number of providers, value); a history is non-trivial if any of its operations is, distinct by its sequence of (kind, outcome)"
+	if setRule {
+		r.Sum.Rule = rule
+	}
 	r.Group("hist", "From JK Require Import Model.Collateral Corr.C15.", "c15_case", "c15_ok")
 	r.Group("provmsgs", "From JK Require Import Model.Collateral Corr.C15.", "c15_case", "c15_ok")
 	p := r.Rng
-	nh := r.Scale(11, 220)
-	for k := 0; k < nh+r.Scale(5, 80); k++ {
+	for k := 0; k < nh+nprov; k++ {
 		provHeavy := k >= nh
 		w, err := c15NewWorld()
 		if err != nil {
@@ -915,13 +923,13 @@ func runC15(r *RunCtx) error {
 			return err
 		}
 		h.rebase(obs)
-		if k == 0 {
+		if k == 0 && nh > 0 {
 			if err := h.scripted(); err != nil {
 				return err
 			}
 		}
 		allowEscrow := !provHeavy && k%5 == 4
-		if k == 4 {
+		if k == 4 && nh > 0 {
 			if err := h.scriptedOutside(); err != nil {
 				return err
 			}
@@ -940,6 +948,11 @@ func runC15(r *RunCtx) error {
 			} else if provHeavy && i < 4 {
 				id, up := 1+i%4, i%3 == 1
 				o = c15Op{Kind: "Init", Creator: Spell(w.addrs[id], up), Sg: c15Signer{id, up}, VB: true, Ip: c15Ips[i%4], IpOK: true, Keybase: "k", Space: int64(i)}
+			} else if provHeavy && i == 4 {
+				// provider 1 authorises provider 3 as claimer; when 3 later shuts down, 1's record is none of its business
+				o = c15Op{Kind: "AddClaimer", Creator: w.addrs[1].String(), Sg: c15Signer{1, false}, VB: true, Claimer: w.addrs[3].String(), ClSg: c15Signer{3, false}}
+			} else if provHeavy && i == 5 {
+				o = c15Op{Kind: "Shutdown", Creator: w.addrs[3].String(), Sg: c15Signer{3, false}, VB: true}
 			} else {
 				o, _ = h.randomOp(p, provHeavy)
 				// aim most record-management messages at a spelling that owns a record
